@@ -54,10 +54,20 @@ class C01:
         started = sim.counters.get("process_started", 0)
         out["nontrivial"] = started > 0 and sim.n_switches > 0 and len(t_ref["interactions"]) > 0
         out["counters"]["reach.worker_restarted"] = int(started > cfg["config"][0])
+        getters = {}
+        for c in sim.user.get("calls", []):
+            if c[0] == "cache.getter":
+                getters.setdefault(c[1], []).append(c[2])
+        if getters:
+            out["counters"]["reach.cache_entry_populated_in_worker"] = 1
+            out["counters"]["sim_seconds_in_cache_waits"] = int(sim.now)
         out["counters"]["interaction_rows"] = len(t_ref["interactions"])
         out["counters"]["triples_with_rows"] = len({(r["environment_id"], r["learner_id"], r["evaluator_id"]) for r in t_ref["interactions"]})
         v = None
-        if outcome in ("deadlock", "livelock"):
+        twice = {k: p for k, p in getters.items() if len(p) > 1}
+        if twice:
+            v = vio("cache_getter_ran_twice", f"cache entries were fetched more than once although they stay cached (key -> pids): {twice}")
+        elif outcome in ("deadlock", "livelock"):
             v = vio(outcome, f"{outcome} in Experiment.run under config {cfg['config']}: {sim.outcome_info}")
         elif "exc" in sim.result:
             v = vio("run_raised", f"Experiment.run raised under config {cfg['config']}: {sim.result['exc']!r}\n{sim.result.get('tb','')[-1500:]}")
